@@ -11,7 +11,10 @@
                               for every input individual, one at least as good;
   * `C16_elite_monotone`    — in a run of ANY length whose step reserves at least one elitism slot the
                               best aggregate of generation `i+1` is never below that of generation `i`
-                              (`C16_elite_monotone_best`: stated on the maximum itself).
+                              (`C16_elite_monotone_best`: stated on the maximum itself);
+  * `C16_elitism_order_only` — under any strictly monotone re-scaling of the fitness values the elite of every size consists
+                              of the same individuals in the same order: elitism sees the order of the values, not their
+                              distance (what the harness's near-equal / huge-magnitude fitness cases rely on).
 -/
 import GEVerif.Model.Steps
 import GEVerif.Lemmas.Steps
@@ -256,5 +259,53 @@ example : (gpGenerations scripted ⟨1⟩ exStep 5 2 exPop exSt).map (·.1.map (
     = some [some 5, some 5, some 5] := by decide +kernel
 -- the default step at population 10 has NO elitism slot (5% rounds to 0): the hypothesis fails there
 example : computeRanges [5, 5, 90] 10 = some [(0, 0), (0, 0), (0, 10)] := by decide
+
+/-! ## only the ORDER of the fitness values matters -/
+
+/-- re-scale the aggregate of an individual -/
+def Ind.rescale (f : Int → Int) (x : Ind) : Ind := { x with agg := f x.agg }
+
+/-- `f` preserves the strict order of fitness values (however close they lie) -/
+def StrictMono (f : Int → Int) : Prop := ∀ a b, a < b → f a < f b
+
+theorem StrictMono.lt_iff {f : Int → Int} (hf : StrictMono f) (a b : Int) : f a < f b ↔ a < b := by
+  constructor
+  · intro h
+    rcases Int.lt_trichotomy a b with h1 | h1 | h1
+    · exact h1
+    · subst h1; omega
+    · have := hf b a h1; omega
+  · exact hf a b
+
+private theorem insertDesc_rescale {f : Int → Int} (hf : StrictMono f) (x : Ind) (ys : List Ind) :
+    insertDesc (Ind.rescale f x) (ys.map (Ind.rescale f)) = (insertDesc x ys).map (Ind.rescale f) := by
+  induction ys with
+  | nil => simp [insertDesc]
+  | cons y ys ih =>
+    simp only [List.map_cons, insertDesc]
+    have hiff : (Ind.rescale f x).agg < (Ind.rescale f y).agg ↔ x.agg < y.agg := hf.lt_iff _ _
+    by_cases h : x.agg < y.agg
+    · have h' : (Ind.rescale f y).agg > (Ind.rescale f x).agg := hiff.2 h
+      have h2 : y.agg > x.agg := h
+      rw [if_pos h', if_pos h2, List.map_cons, ih]
+    · have h' : ¬ (Ind.rescale f y).agg > (Ind.rescale f x).agg := fun c => h (hiff.1 c)
+      have h2 : ¬ y.agg > x.agg := h
+      rw [if_neg h', if_neg h2]
+      simp
+
+/-- **Elitism sees the ORDER of the fitness values only.**  Under any strictly monotone re-scaling of the aggregates
+(values one ulp apart, values in the billions, it makes no difference) the stable descending sort -- hence the elite
+of every size -- consists of the same individuals in the same order. -/
+theorem C16_elitism_order_only {f : Int → Int} (hf : StrictMono f) (xs : List Ind) (k : Nat) :
+    (sortDesc (xs.map (Ind.rescale f))).take k = ((sortDesc xs).take k).map (Ind.rescale f) := by
+  have h : sortDesc (xs.map (Ind.rescale f)) = (sortDesc xs).map (Ind.rescale f) := by
+    induction xs with
+    | nil => rfl
+    | cons x xs ih => simp only [List.map_cons, sortDesc, ih, insertDesc_rescale hf]
+  rw [h, List.map_take]
+
+example : StrictMono (fun a => 3 * a + 7) := by intro a b h; show 3 * a + 7 < 3 * b + 7; omega
+example : (sortDesc ([⟨0, 2, []⟩, ⟨1, 5, []⟩, ⟨2, 2, []⟩].map (Ind.rescale fun a => 3 * a + 7))).take 2 =
+    [⟨1, 22, []⟩, ⟨0, 13, []⟩] := by decide
 
 end GEVerif.C16
